@@ -16,6 +16,7 @@ static nni_reap_list *reap_list = NULL;
 static nni_thr        reap_thr;
 static bool           reap_exit = false;
 static bool           reap_empty;
+static bool           reap_inited = false;
 static nni_mtx        reap_mtx;
 static nni_cv         reap_work_cv;
 static nni_cv         reap_empty_cv;
@@ -91,6 +92,10 @@ bool
 nni_reap_sys_drain(void)
 {
 	bool result = false;
+	if (!reap_inited) {
+		// initialization failed before it got to us
+		return (false);
+	}
 	nni_mtx_lock(&reap_mtx);
 	while (!reap_empty) {
 		result = true;
@@ -109,6 +114,7 @@ nni_reap_sys_init(void)
 	nni_mtx_init(&reap_mtx);
 	nni_cv_init(&reap_work_cv, &reap_mtx);
 	nni_cv_init(&reap_empty_cv, &reap_mtx);
+	reap_inited = true;
 	// If this fails, we don't fail init, instead we will try to
 	// start up at reap time.
 	if ((rv = nni_thr_init(&reap_thr, reap_worker, NULL)) != 0) {
@@ -121,6 +127,9 @@ nni_reap_sys_init(void)
 void
 nni_reap_sys_fini(void)
 {
+	if (!reap_inited) {
+		return;
+	}
 	nni_mtx_lock(&reap_mtx);
 	reap_exit = true;
 	nni_cv_wake1(&reap_work_cv);
@@ -130,6 +139,7 @@ nni_reap_sys_fini(void)
 	nni_cv_fini(&reap_work_cv);
 	nni_cv_fini(&reap_empty_cv);
 	nni_mtx_fini(&reap_mtx);
+	reap_inited = false;
 
 	// NB: The subsystem linkages remain in place.  We don't need
 	// to reinitialize them across future initializations.
